@@ -182,13 +182,20 @@ package encoding
 //@   inline-loop BytesToVarInt64List 1 unroll 10
 //@   ensures  tail: result2 == nil ==> sameobj(result0, src) && len(result0) <= len(src)
 //@ func BytesToInt64List
-//@   mode bv
+//@   mode int
+//@   opt wrap int64
 //@   requires itemsCount >= 1 && (mt == EncodeTypeDeltaOfDelta ==> itemsCount >= 2)
 //@   modifies dst[len(dst):cap(dst)]
 //@   ensures  count: result1 == nil ==> len(result0) == len(dst) + itemsCount
+//@   ensures  const-values: result1 == nil && mt == EncodeTypeConst ==> (forall k :: len(dst) <= k && k < len(result0) ==> result0[k] == firstValue)
 //@   loop 0 invariant itemsCount >= 0 && len(dst) + itemsCount == old(len(dst)) + old(itemsCount)
+//@   loop 0 invariant forall k :: old(len(dst)) <= k && k < len(dst) ==> dst[k] == firstValue
 //@   loop 0 decreases itemsCount
+//@   ensures  delta-const-values: result1 == nil && mt == EncodeTypeDeltaConst ==> result0[len(dst)] == firstValue && (forall k :: len(dst)+1 < k && k < len(result0) ==> wrap(result0[k] - result0[k-1]) == wrap(result0[len(dst)+1] - result0[len(dst)]))
 //@   loop 1 invariant itemsCount >= 0 && len(dst) + itemsCount == old(len(dst)) + old(itemsCount)
+//@   loop 1 invariant len(dst) == old(len(dst)) ==> v == firstValue
+//@   loop 1 invariant len(dst) > old(len(dst)) ==> dst[old(len(dst))] == firstValue && wrap(dst[len(dst)-1] + d) == v
+//@   loop 1 invariant forall k :: old(len(dst)) < k && k < len(dst) ==> wrap(dst[k] - dst[k-1]) == d
 //@   loop 1 decreases itemsCount
 //
 // ---- byte strings and adaptive-width unsigned blocks (bytes.go) ----
@@ -461,3 +468,48 @@ package encoding
 //@   requires bbd != nil
 //@   modifies bbd.data
 //@   ensures  len(bbd.data) == 0
+//
+// ---- choosing the list encoding (int_list.go) ----
+// isDelta: "delta-constant" means every consecutive difference (wrapping int64 subtraction, exactly what the decoder's
+// wrapping v += d undoes) equals the first one.
+//@ func isDelta
+//@   property C11
+//@   mode int
+//@   opt wrap int64
+//@   ensures  result1 ==> result0
+//@   ensures  result0 ==> len(a) >= 2
+//@   ensures  delta-const: result1 ==> (forall k :: 1 <= k && k < len(a) ==> wrap(a[k] - a[k-1]) == wrap(a[1] - a[0]))
+//@   loop 0 invariant prev == a[range_i+1] && d1 == wrap(a[1] - a[0])
+//@   loop 0 invariant ct ==> (forall k :: 1 <= k && k < range_i+2 ==> wrap(a[k] - a[k-1]) == d1)
+//@ func isIncremental
+//@   property C11
+//@   assumed classification helper: any answer (only chooses between two lossless modes)
+//@   pure
+//@ func int64sDeltaOfDeltaToBytes
+//@   property C11
+//@   assumed delta-of-delta bit packing (bit-stream writer outside the modelled subset)
+//@   requires len(src) >= 2
+//@   modifies dst[len(dst):cap(dst)]
+//@   ensures  appendShape(result0, dst)
+//@ func int64ListDeltaToBytes
+//@   property C11
+//@   assumed delta bit packing (bit-stream writer outside the modelled subset)
+//@   requires len(src) >= 1
+//@   modifies dst[len(dst):cap(dst)]
+//@   ensures  appendShape(result0, dst)
+//
+// Int64ListToBytes: the mode byte it reports is always one of the four integer-list modes (never Plain / Dictionary /
+// Unknown, which the column and tag decoders use to tell a fallback block from an integer list), a constant list is
+// stored as "const + first value" with no payload - which BytesToInt64List's const branch turns back into the same list -
+// and delta-const is chosen only for lists whose consecutive differences are all equal.
+//@ func Int64ListToBytes
+//@   property C11 C01
+//@   mode bv
+//@   requires len(a) >= 1
+//@   modifies dst[len(dst):cap(dst)]
+//@   allow panic when false
+//@   ensures  mode-is-an-integer-list-mode: result1 == EncodeTypeConst || result1 == EncodeTypeDeltaConst || result1 == EncodeTypeDeltaOfDelta || result1 == EncodeTypeDelta
+//@   ensures  const-list: (forall k :: 0 <= k && k < len(a) ==> a[k] == a[0]) ==> result1 == EncodeTypeConst && result2 == a[0] && samehdr(result0, dst)
+//@   ensures  only-const-lists-are-const: result1 == EncodeTypeConst ==> (forall k :: 0 <= k && k < len(a) ==> a[k] == a[0])
+//@   ensures  delta-const-list: result1 == EncodeTypeDeltaConst ==> len(a) >= 2 && result2 == a[0] && (forall k :: 1 <= k && k < len(a) ==> wrap(a[k] - a[k-1]) == wrap(a[1] - a[0]))
+//@   ensures  delta-of-delta-needs-two: result1 == EncodeTypeDeltaOfDelta ==> len(a) >= 2
